@@ -30,6 +30,7 @@
 import Absnfs.ServerCoherent
 import Absnfs.ServerInvProcs
 import Absnfs.ServerFailed
+import Absnfs.FsReach
 import Props.C21
 import Gen.Facts
 open Absnfs Absnfs.Server
@@ -127,6 +128,12 @@ theorem rename_keeps_wf {fs fs1 : Fs.T} {a b : Fs.Path} (h : Fs.rename fs a b = 
   (Fs.rename_frame h hw).1
 theorem remove_keeps_wf {fs fs1 : Fs.T} {p : Fs.Path} (h : Fs.remove fs p = .ok fs1) (hw : Fs.WF fs) : Fs.WF fs1 :=
   (Fs.remove_frame h hw).1
+
+/-- every backend tree built from the empty one with the backend's own operations (Mkdir, Symlink, Create,
+    WriteAt, Truncate, Chmod, Chown, Lchown, Remove, Rename; failing ones change nothing) is well-formed: the
+    hypothesis of `new_server_cinv` holds for every tree a server can be started on -/
+theorem reachable_backend_wf (m : Nat) (ops : List Fs.Op) : Fs.WF (ops.foldl Fs.applyOp (Fs.empty m)) :=
+  Fs.reachable_wf m ops
 
 /-- every request keeps the invariant: the server's own mutations never leave a stale attribute or negative entry -/
 theorem handle_cinv (s : St) (c : Ctx) (prog vers proc : Nat) (args : Bytes) (h : CInv s) :
